@@ -183,6 +183,52 @@ theorem set_split1 (A : List Entry) (m : Nat) (hm : 1 < m) (e : Entry) :
   obtain ⟨m', rfl⟩ : ∃ m', m = m' + 2 := ⟨m - 2, by omega⟩
   simp [List.replicate_succ, List.set_append_right]
 
+/-- the list-level core of placing an entry in row order: `L = A ++ 1…1` is a layer (or grid column) whose first `s`
+rows are filled (`A`, of width `s`); writing `e` to row `s` (or to row `s+1`, leaving the placeholder in row `s`)
+gives `B ++ 1…1` with `B` of length and width `s + w`, whose items are those of `A` followed by the new item -/
+theorem place_list (calls : List (GateCall Φ)) (n s w i : Nat) (e : Entry) (it : BinItem Φ) (L A : List Entry)
+    (hA : L = A ++ List.replicate (n - s) Entry.one) (hl : A.length = s) (hwA : width calls A = s)
+    (hAv : ∀ x ∈ A, validE calls x) (hw : entryWidth calls e = w) (hit : entryItem calls s e = [it])
+    (hv : validE calls e) (hrow : (i = s ∧ 1 ≤ w) ∨ (i = s + 1 ∧ w = 2)) (hfit : s + w ≤ n) :
+    ∃ B, setAt L i e = .ok (B ++ List.replicate (n - (s + w)) Entry.one) ∧ B.length = s + w ∧
+      width calls B = s + w ∧ layerItems calls 0 B = layerItems calls 0 A ++ [it] ∧ (∀ x ∈ B, validE calls x) := by
+  rcases hrow with ⟨hi, hw1⟩ | ⟨hi, hw2⟩
+  · refine ⟨A ++ [e] ++ List.replicate (w - 1) Entry.one, ?_, ?_, ?_, ?_, ?_⟩
+    · unfold setAt
+      have hlen : i < L.length := by rw [hA]; simp; omega
+      rw [if_pos hlen, hA, hi, ← hl, set_split0 A _ (by omega) e]
+      congr 1
+      rw [List.append_assoc (A ++ [e]), ← List.replicate_add]
+      congr 2; omega
+    · simp; omega
+    · rw [width_append, width_append, width_ones, hwA]; simp [width, hw]
+    · rw [layerItems_append, layerItems_append, layerItems_ones, hwA]
+      simp [layerItems, hit]
+    · intro x hx
+      simp only [List.mem_append, List.mem_singleton, List.mem_replicate] at hx
+      rcases hx with (hx | hx) | hx
+      · exact hAv x hx
+      · subst hx; exact hv
+      · rw [hx.2]; trivial
+  · subst hw2
+    refine ⟨A ++ [Entry.one, e], ?_, ?_, ?_, ?_, ?_⟩
+    · unfold setAt
+      have hlen : i < L.length := by rw [hA]; simp; omega
+      rw [if_pos hlen, hA, hi, ← hl, set_split1 A _ (by omega) e, Nat.sub_sub]
+    · simp; omega
+    · rw [width_append, hwA]
+      simp only [width, List.map_cons, List.map_nil, List.sum_cons, List.sum_nil, entryWidth_one, hw]
+      omega
+    · rw [layerItems_append, hwA]
+      simp only [layerItems, entryItem_one, entryWidth_one, List.nil_append, Nat.zero_add, Nat.add_zero, hit,
+        List.append_nil]
+    · intro x hx
+      simp only [List.mem_append, List.mem_cons, List.not_mem_nil, or_false] at hx
+      rcases hx with hx | hx | hx
+      · exact hAv x hx
+      · subst hx; trivial
+      · subst hx; exact hv
+
 /-- **placing an entry in row order keeps the relation**: `e` goes to row `s` (or to row `s+1` with the placeholder
 left in row `s`, for a reversed two-qubit gate), has width `w`, and stands for the item `it` at offset `s` -/
 theorem placeE_sim (n : Nat) (st st' : LayerState Φ) (b : BinState Φ) (h : Rel n st b) (i w : Nat) (e : Entry)
